@@ -221,6 +221,10 @@ def r_eqhash(ctx) -> None:
             continue
         ctx.check(not extra, 'R-EQHASH', ci.ref, f'{ci.qual}: everything the hash depends on {sorted(htoks)} is compared by equality {sorted(etoks)}', key=f'{ci.qual}:subset', loc=f'{ci.module.relpath}:{hash_node.lineno}')
     ctx.floor('R-EQHASH', n, 6)
+    # element-wise equalities must not truncate
+    for ci in prog.classes.values():
+        if ci.module.name in FAMILY_MODULES and '__eq__' in ci.methods:
+            shared.r_zipeq(ctx, prog.func(f'{ci.ref}.__eq__'), 'R-ZIPEQ')
 
 
 def _same_lineage(prog, names: list[str], fam: list[core.ClassInfo]) -> bool:
